@@ -17,7 +17,7 @@ def showPath : Path → String
   | .inc k => s!"I.{k.1}.{k.2}"
   | .finDir si => s!"FD.{si}"
   | .incDir si => s!"ID.{si}"
-  | .incPrefix si => s!"IP.{si}"
+  | .incPrefix _ => "IP"   -- SIs may share a prefix directory: printed without the SI
 
 def showOp : IOp → String
   | .create p => s!"create:{showPath p}"
